@@ -58,7 +58,10 @@ def _gen_docs(r, n=None, prefix=''):
             # a block scalar whose text looks like a number / bool / null: it is a string, with or without a marker tag
             d['items'].append([r.choice([k for k in ('blk', 'a', 'c') if k not in [kk for kk, _ in d['items']]]), {'k': 'blk', 'tag': None, 'style': r.choice(['|-', '|', '>-']),
                                                               'text': r.choice(['123', '4.5', 'true', 'null', '~', '0x1F', 'plain text'])}])
-        docs.append(_sanitise(d, top=True))
+        d = _sanitise(d, top=True)
+        if r.random() < 0.1 and d['items']:
+            d['tag'] = r.choice(['!del', '!del', '!merge', '!force', '!weak'])      # a marker on the document itself
+        docs.append(d)
     return docs
 
 
@@ -271,8 +274,8 @@ def _mark(node, r, tag, p=0.3):
             for it in n['items']:
                 walk(it, False)
     walk(node, True)
-    if tag == '!unsafe' and r.random() < 0.3:
-        node['tag'] = tag       # the whole document
+    if tag == '!unsafe' and r.random() < 0.3 and not node.get('tag'):
+        node['tag'] = tag       # the whole document (unless it carries a marker of its own: a node has one tag)
         n_marked[0] += 1
     return node, n_marked[0]
 
